@@ -154,6 +154,11 @@ func renderClass(in Input, ci int, idx projectIndex) string {
 			if len(m.Rets) > 0 {
 				ret = "Object"
 			}
+			for _, t := range m.Pre {
+				if strings.HasSuffix(t, "Nullable") || strings.HasSuffix(t, "CheckForNull") {
+					ret = "Object" // a nullness annotation stands on a method that returns a reference
+				}
+			}
 			head = fmt.Sprintf("    %s%s %s(%s)", pre, ret, concat(m.Name), paramList(m.Params))
 		}
 		if m.Kind != "ctor" && isAbstract && len(m.Rets) == 0 && len(m.Calls) == 0 {
